@@ -572,7 +572,39 @@ func cmdStoreRand(args []string) {
 		}
 		runs[k] = rs
 	}
+	// wide requests: one statement that needs the balances of N accounts, N around the sizes at which a request might be cut
+	// into pages or batches (powers of two and their neighbours); every account matters for the result
+	for j, N := range []int{15, 16, 17, 31, 32, 33, 40, 63, 64, 65, 70, 100, 128, 130} {
+		c := wideStoreCase(r, n+j, N, j%3 == 2)
+		k := fmt.Sprint(n + j)
+		cases[k] = c
+		order = append(order, k)
+		rs := []storeRun{{modes: []string{"exact"}}, {modes: []string{"sparse"}}, {modes: []string{"superset"}}, {modes: []string{"exact"}, fault: 1}}
+		runs[k] = rs
+	}
 	writeGroups(args[2], order, func(k string) (*Case, []storeRun) { return cases[k], runs[k] }, 0)
+}
+
+func wideStoreCase(r *rand.Rand, id int, N int, sendAll bool) *Case {
+	c := &Case{ID: id, Corpus: "store-wide", VarVals: map[string]J{}, RawVars: map[string]string{}, Decls: []any{},
+		Bal: map[string]map[string]int64{}, Meta: map[string]map[string]string{}}
+	var leaves []any
+	total := 0
+	for i := 0; i < N; i++ {
+		name := fmt.Sprintf("users:%03d", r.Intn(3)*1000+i) // (not in sorted order of declaration)
+		b := 1 + r.Intn(3)
+		c.Bal[name] = map[string]int64{"USD": int64(b)}
+		total += b
+		leaves = append(leaves, J{"k": "acct", "e": eAcct(name)})
+	}
+	r.Shuffle(len(leaves), func(i, j int) { leaves[i], leaves[j] = leaves[j], leaves[i] })
+	var sent J = eMon(eAsset("USD"), eNum(total))
+	if sendAll {
+		sent = eAsset("USD")
+	}
+	c.Stmts = []any{J{"k": "send", "all": sendAll, "sent": sent, "src": J{"k": "seq", "s": leaves}, "dst": J{"k": "acct", "e": eAcct("d")}}}
+	c.Text = printProgram(c.Decls, c.Stmts)
+	return c
 }
 
 // vh store-replay <replay.json> <out.ndjson>: re-execute one recorded group
